@@ -23,9 +23,13 @@
                     line per further step, each base64 or "*")
      param_ok ext p p is one token "KEYWORD" or "KEYWORD=value" without CR, LF
                     or SP, KEYWORD in {BODY, SIZE, REQUIRETLS, SMTPUTF8, RET,
-                    ENVID, NOTIFY, ORCPT, AUTH, RRVS} and its extension key
-                    (8BITMIME, SIZE, REQUIRETLS, SMTPUTF8, DSN, AUTH, RRVS)
-                    is in ext
+                    ENVID, NOTIFY, ORCPT, AUTH, RRVS} and the extension key
+                    that licenses it (ext_for: 8BITMIME for BODY=7BIT and
+                    BODY=8BITMIME, BINARYMIME for BODY=BINARYMIME, SIZE,
+                    REQUIRETLS, SMTPUTF8, DSN, AUTH, RRVS) is in ext
+     body_refused ext o  Body is 7BIT / 8BITMIME and 8BITMIME is not in ext, or
+                    BINARYMIME and BINARYMIME is not in ext, or any other
+                    non-empty string
    [c_ext] is the map parsed by ehlo() from the most recent EHLO reply
    (c_ehlo_parsed, has_ext_parse_ext; helo() sets it to nil). *)
 From Smtp Require Import Bytes GoStrings Reply ClientReply Conn Client ClientProofs.
@@ -71,11 +75,31 @@ Theorem C15_only_negotiated_rcpt : forall c to opts r c',
 Proof. exact ClientProofs.C15_only_negotiated_rcpt. Qed.
 
 Theorem C15_requested_not_offered : forall from o c,
-  (mo_requiretls o = true /\ has_ext (c_ext c) (key "REQUIRETLS") = false)
+  body_refused (c_ext c) o
+  \/ (mo_requiretls o = true /\ has_ext (c_ext c) (key "REQUIRETLS") = false)
   \/ (mo_utf8 o = true /\ has_ext (c_ext c) (key "SMTPUTF8") = false) ->
   exists e, c_mail_step from (Some o) c = (RLocal e, set_rcpts c [])
-            /\ (e = err_requiretls \/ e = err_smtputf8).
+            /\ (body_err e \/ e = err_requiretls \/ e = err_smtputf8).
 Proof. exact ClientProofs.C15_requested_not_offered. Qed.
+
+(* a requested Body whose extension was not offered, or an unknown Body value,
+   is a local error too (never a silent BODY=8BITMIME), each with its own text *)
+Theorem C15_body_not_offered : forall from o c,
+  body_refused (c_ext c) o ->
+  exists e, c_mail_step from (Some o) c = (RLocal e, set_rcpts c [])
+            /\ ((mo_body o = bs "7BIT" \/ mo_body o = bs "8BITMIME") -> e = err_8bitmime)
+            /\ (mo_body o = bs "BINARYMIME" -> e = err_binarymime)
+            /\ (mo_body o <> bs "7BIT" -> mo_body o <> bs "8BITMIME" -> mo_body o <> bs "BINARYMIME"
+                -> e = err_body).
+Proof. exact ClientProofs.C15_body_not_offered. Qed.
+
+(* what param_ok says about the BODY parameter, spelled out: BODY=BINARYMIME
+   only with BINARYMIME offered, any other BODY value only with 8BITMIME *)
+Theorem C15_body_param_licensed : forall ext v,
+  param_ok ext (bs "BODY" ++ "="%char :: v) ->
+  if bytes_eqb v (bs "BINARYMIME") then has_ext ext (bs "BINARYMIME") = true
+  else has_ext ext (bs "8BITMIME") = true.
+Proof. exact ClientProofs.C15_body_param_licensed. Qed.
 
 (* Mail = validateLine; hello(); the step above on the state hello() left *)
 Theorem C15_mail_is_hello_then_step : forall c from opts,
@@ -102,6 +126,8 @@ Print Assumptions C15_invariant.
 Print Assumptions C15_only_negotiated_mail.
 Print Assumptions C15_only_negotiated_rcpt.
 Print Assumptions C15_requested_not_offered.
+Print Assumptions C15_body_not_offered.
+Print Assumptions C15_body_param_licensed.
 Print Assumptions C15_mail_is_hello_then_step.
 Print Assumptions C15_ext_is_latest_ehlo.
 Print Assumptions C15_ext_keys.
